@@ -139,10 +139,13 @@ def validate(
     shacl_graph_format = kwargs.pop('shacl_graph_format', None)
     if shacl_graph is not None:
         rdflib_bool_patch()
-        loaded_sg = load_from_source(
-            shacl_graph, rdf_format=shacl_graph_format, multigraph=True, do_owl_imports=do_owl_imports, logger=log
-        )
-        rdflib_bool_unpatch()
+        try:
+            loaded_sg = load_from_source(
+                shacl_graph, rdf_format=shacl_graph_format, multigraph=True, do_owl_imports=do_owl_imports, logger=log
+            )
+        finally:
+            # also restore rdflib's literal handling when the shapes graph cannot be loaded
+            rdflib_bool_unpatch()
     else:
         loaded_sg = None
     iterate_rules = kwargs.pop('iterate_rules', False)
@@ -304,10 +307,13 @@ def shacl_rules(
     shacl_graph_format = kwargs.pop('shacl_graph_format', None)
     if shacl_graph is not None:
         rdflib_bool_patch()
-        loaded_sg = load_from_source(
-            shacl_graph, rdf_format=shacl_graph_format, multigraph=True, do_owl_imports=do_owl_imports, logger=log
-        )
-        rdflib_bool_unpatch()
+        try:
+            loaded_sg = load_from_source(
+                shacl_graph, rdf_format=shacl_graph_format, multigraph=True, do_owl_imports=do_owl_imports, logger=log
+            )
+        finally:
+            # also restore rdflib's literal handling when the shapes graph cannot be loaded
+            rdflib_bool_unpatch()
     else:
         loaded_sg = None
     iterate_rules = kwargs.pop('iterate_rules', False)
